@@ -123,6 +123,14 @@ func c01(args []string) {
 		},
 		func() error { _, err := encoder.NewStream(nil); return err },
 		func() error { _, err := encoder.NewStream(&bytes.Buffer{}); return err }, // neither io.WriterAt nor io.WriteSeeker
+		func() error { // a stream encoder moved onto a destination it cannot rewrite
+			dst, _ := newDest(3, -1, 0, nil)
+			se, err := encoder.NewStream(dst)
+			if err != nil {
+				return nil
+			}
+			return se.Reset(&bytes.Buffer{})
+		},
 	} {
 		err, p := func() (err error, p any) { defer func() { p = recover() }(); return call(), nil }()
 		stat("nil_or_unsuitable_writer_calls", 1)
